@@ -34,6 +34,12 @@ class HashMapV:
                 return i
         return None
 
+    def mir_drop(self, ctx):
+        ents, self.entries = self.entries, []
+        for _k, c in ents:
+            if c.v is not None and not is_z3(c.v):
+                ctx.drop_value(c.v)
+
     def clone_model(self, ctx):
         n = HashMapV()
         n.entries = [(k, Cell(clone_value(ctx, c.v), "hm")) for k, c in self.entries]
@@ -150,6 +156,12 @@ def _entry_or_insert_with2(ctx, a, c):
 class VecV:
     def __init__(self, items=()):
         self.items = list(items)
+
+    def mir_drop(self, ctx):
+        items, self.items = self.items, []
+        for x in items:
+            if x is not None and not is_z3(x):
+                ctx.drop_value(x)
 
     def clone_model(self, ctx):
         return VecV([clone_value(ctx, x) for x in self.items])
